@@ -452,10 +452,13 @@ mod builtins {
                     None => (0, lower),
                 };
 
+                // the distance can exceed isize, so it is computed in i128
                 let len = if start <= end {
                     0
                 } else {
-                    ((start - end + (-step) - 1) / (-step)) as usize
+                    let distance = start as i128 - end as i128;
+                    let step = -(step as i128);
+                    usize::try_from((distance + step - 1) / step).unwrap_or(usize::MAX)
                 };
 
                 let iter = (0..len).map(move |i| start + (i as isize) * step);
